@@ -145,7 +145,7 @@ fn str_lit(rng: &mut Rng) -> &'static str {
 }
 
 /// programs whose host calls, output and final value are all predictable
-fn gen_host_program(rng: &mut Rng, arity0_first_class: bool) -> (String, Expect, &'static str, Option<(usize, Vec<i64>, i64)>) {
+fn gen_host_program(rng: &mut Rng) -> (String, Expect, &'static str, Option<(usize, Vec<i64>, i64)>) {
     let mut s = String::from(HOST_DECLS);
     let mut out = String::new();
     let mut calls: Vec<String> = vec![];
@@ -165,9 +165,8 @@ fn gen_host_program(rng: &mut Rng, arity0_first_class: bool) -> (String, Expect,
         match rng.below(6) {
             0 => {
                 let call = match style {
-                    // defect D44 (fix queued): a zero-parameter host function used as a first-class value
-                    // loses its result; the shape is generated once the implementation handles the probe
-                    2 if arity0_first_class => {
+                    // a zero-parameter host function used as a first-class value (repaired defect D44)
+                    2 => {
                         s.push_str(&format!("let g{k} = h0\nlet r{k} = g{k}()\n"));
                         "h0()"
                     }
@@ -399,22 +398,23 @@ fn main() {
     let mut ctx = Ctx::from_env("C11");
     let quick = ctx.quick();
     let n = if quick { 150 } else { 1500 };
-    // adaptive probe for defect D44 (fix queued in /repo): `let g = readline; g()` must deliver the host's value
-    let arity0_ok = {
+    // regression of the repaired defect D44 (fix acfc8f4): a zero-parameter host function used as a first-class
+    // value must deliver the host's value — a hard check, and the shape is always part of the main stream
+    {
         let src = std::fs::read_to_string("/verif/corpus/C11-host-arity0-first-class.abra").expect("corpus file");
-        let mut ok = true;
         for b in [1u32, 3, 5000] {
             let mut h = prelude_host(&PRELUDE_HOSTS);
             let t = run_traced(&src, &Schedule::constant(b), 100_000, &mut h);
-            ok &= matches!(t.outcome, Outcome::Done) && t.out == "[]\n";
+            if matches!(t.outcome, Outcome::Done) && t.out == "[]\n" {
+                ctx.count("regression:D44-ok");
+            } else {
+                ctx.spec_fail(format!(
+                    "budget {b}: a zero-parameter host function used as a first-class value must deliver the host's value (expected output \"[]\\n\"): {} out={:?} {} :: {}",
+                    t.outcome.tag(), t.out, match &t.outcome { Outcome::Crash(m) => m.replace('\n', " | "), _ => t.err_text.replace('\n', " | ") }, src.replace('\n', "\\n")
+                ));
+            }
         }
-        ok
-    };
-    ctx.notes.push(format!(
-        "D44 probe (zero-parameter host function as a first-class value): {}",
-        if arity0_ok { "handled by the implementation: shape generated in the main stream" } else { "still faults: shape kept out of the main stream until the fix lands" }
-    ));
-    ctx.count(if arity0_ok { "probe:D44-fixed" } else { "probe:D44-open" });
+    }
     let mut jobs: Vec<Job> = vec![];
     for i in 0..(3 * n + n / 2 + n) {
         if i >= 3 * n + n / 2 {
@@ -425,7 +425,7 @@ fn main() {
             continue;
         }
         let (src, expect, class, model_host) = match i % 7 {
-            0 | 1 | 2 => gen_host_program(&mut ctx.rng, arity0_ok),
+            0 | 1 | 2 => gen_host_program(&mut ctx.rng),
             3 | 4 => {
                 let (s, e, c) = gen_status_program(&mut ctx.rng);
                 (s, e, c, None)
